@@ -57,6 +57,14 @@ class Iface:
         return "Iface(%s,%r)" % (self.type, self.val)
 
 
+class StrV:
+    """string value made of (possibly symbolic) bytes"""
+    __slots__ = ("b",)
+
+    def __init__(self, b):
+        self.b = tuple(b)
+
+
 class Closure:
     __slots__ = ("fn", "bindings")
 
@@ -383,6 +391,21 @@ class Executor:
             return e if op == "==" else not e
         if isinstance(x, str) and isinstance(y, str):
             return (x == y) if op == "==" else (x != y)
+        if isinstance(x, StrV) or isinstance(y, StrV):
+            xs = x.b if isinstance(x, StrV) else tuple(x.encode("latin1"))
+            ys = y.b if isinstance(y, StrV) else tuple(y.encode("latin1"))
+            if op not in ("==", "!="):
+                raise ExecError("ordering comparison of symbolic strings")
+            if len(xs) != len(ys):
+                r = False
+            else:
+                r = True
+                u8 = self.prog.T("uint8")
+                for a, b in zip(xs, ys):
+                    r = self.and_(r, self.compare(path, "==", a, b, u8))
+                    if r is False:
+                        break
+            return r if op == "==" else self.not_(r)
         if (type(x) is int or type(x) is bool) and (type(y) is int or type(y) is bool):
             return {"==": x == y, "!=": x != y, "<": x < y, "<=": x <= y, ">": x > y, ">=": x >= y}[op]
         if hasattr(x, "opaque_eq") or hasattr(y, "opaque_eq"):
@@ -722,6 +745,15 @@ class Executor:
                     env[ins["name"]] = self.dom.convert(path, x, ft, tt)
             elif tt.u.k == "ptr" and ft.u.k == "ptr":
                 env[ins["name"]] = x
+            elif tt.u.k == "basic" and tt.u.name == "string" and ft.u.k == "slice" and isinstance(x, SliceV):
+                # string([]byte): immutable snapshot of the bytes (possibly symbolic)
+                if type(x.len) is not int:
+                    raise ExecError("string() of a slice with symbolic length")
+                if x.len == 0:
+                    env[ins["name"]] = StrV(())
+                else:
+                    c, idx = self._walk(path, Ptr(x.obj, x.path))
+                    env[ins["name"]] = StrV(tuple(c[idx][x.off:x.off + x.len]))
             else:
                 raise ExecError("convert %s -> %s" % (ft, tt))
         elif op == "If":
